@@ -6,7 +6,7 @@ ALL = "IO II IF IU UO UU UF UI LO LL LF LQ QO QQ QF QL OO OI OU OL OQ fs".split(
 def run(ctx):
     fams = QUICK if ctx.tier == "quick" else ALL
     ctx.cvc(fams, ["M-ALLOC"])
-    ctx.cvc(["II", "OO"] if ctx.tier == "quick" else ["II", "OO", "LF", "QQ", "fs"], ["F-SPLIT"], functions=["bucket_split"])
+    ctx.cvc(["II", "OO"] if ctx.tier == "quick" else ["II", "OO", "LF", "QQ", "fs"], ["F-SPLIT"], functions=["bucket_split", "BTree_split_root"])
     ctx.standin("alloc_rt", families=("OO", "II") if ctx.tier == "quick" else ("OO", "II", "fs", "LF", "QQ"))
     return "proof", (
         "M-ALLOC on every function of the translation units (%s) that allocates, reallocates or frees directly, "
@@ -15,7 +15,8 @@ def run(ctx):
         "kills its argument; (failure-reported) a path on which an allocation returned NULL ends with an error "
         "result. F-SPLIT: bucket_split - the leaf split, with two allocations - from its real (loop-free) body: when it returns -1 "
         "after a failed allocation the leaf is exactly as it was (len, next, vectors and their contents) and the new sibling "
-        "holds no pointer to a released block; when it returns 0 the halves are the exact halves (see C03). "
+        "holds no pointer to a released block; when it returns 0 the halves are the exact halves (see C03); BTree_split_root: a failure "
+        "before the hand-over leaves the root as it was and the child released on that path owns nothing of the root's. "
         "Soundness of the container after the failure, contents previous-or-completed and the follow-up "
         "workload are the bounded fault enumeration alloc_rt through the guarded hook (every n, every scenario)."
         % ", ".join(fams))
